@@ -1246,6 +1246,13 @@ func (x *Exec) matchEvent(sc *specCtx, f ast.Expr, ev *Event) Term {
 					base = x.selectField(sc, base, f.Sel.Name)
 				}
 			}
+		} else if sb, ok := base.(StructV); ok && sb.GoType() != nil {
+			// a function-valued field of a struct held by value (u.opts.canonicalKey)
+			if _, ft, ok := fieldPath(sb.GoType(), f.Sel.Name); ok {
+				if _, isFn := ft.Underlying().(*types.Signature); isFn {
+					base = x.selectField(sc, base, f.Sel.Name)
+				}
+			}
 		}
 		switch b := base.(type) {
 		case PoisonV:
